@@ -175,6 +175,7 @@ type codecCase struct {
 	gt    *gType // nil for hand/shipped shapes
 	t     reflect.Type
 	class bool
+	noC20 bool // in the class but outside the C20 theorem's side conditions (plain integer right after an inline field)
 }
 
 func corrCodec(prop string, outDir string, seed uint64, tier string, withEdits bool) *report {
@@ -188,7 +189,7 @@ func corrCodec(prop string, outDir string, seed uint64, tier string, withEdits b
 	var csR *caseSet
 	if withEdits {
 		// the C20 statement, evaluated by the model on every string of the run (accepted ones are what matters)
-		csR = newCaseSet(outDir, prop+"_respell", append(imports, "GC.Codec.C20Test"), "list sfield * bytes * obs (list (list nat * fval))", "test_c20", 1500)
+		csR = newCaseSet(outDir, prop+"_respell", append(imports, "GC.Codec.C20Test", "GC.Codec.C20PShipped"), "list sfield * bytes * obs (list (list nat * fval))", "test_c20_side", 1500)
 	}
 	var types []codecCase
 	nWild, nClass, nVals := 120, 160, 6
@@ -197,11 +198,11 @@ func corrCodec(prop string, outDir string, seed uint64, tier string, withEdits b
 	}
 	for i := 0; i < nWild; i++ {
 		gt := genWild(r)
-		types = append(types, codecCase{fmt.Sprintf("W%d", i), gt, gt.t, inClass(gt)})
+		types = append(types, codecCase{fmt.Sprintf("W%d", i), gt, gt.t, inClass(gt), false})
 	}
 	for i := 0; i < nClass; i++ {
 		gt := genClass(r)
-		types = append(types, codecCase{fmt.Sprintf("K%d", i), gt, gt.t, true})
+		types = append(types, codecCase{fmt.Sprintf("K%d", i), gt, gt.t, true, false})
 	}
 	// the same layouts with runs of fields moved into embedded structs (depth 1..4): embedding is a documented field
 	// kind, and the flattened layout is unchanged
@@ -212,16 +213,19 @@ func corrCodec(prop string, outDir string, seed uint64, tier string, withEdits b
 			continue
 		}
 		if ngt, ok := nestType(r, base.gt, 1+k%4); ok {
-			types = append(types, codecCase{fmt.Sprintf("N%d", k), ngt, ngt.t, base.class})
+			types = append(types, codecCase{fmt.Sprintf("N%d", k), ngt, ngt.t, base.class, false})
 			k++
 		}
 	}
 	rep.Distribution["types_nested"] = nNest
 	for i, t := range handShapes {
-		types = append(types, codecCase{fmt.Sprintf("H%d", i), nil, t, false})
+		types = append(types, codecCase{fmt.Sprintf("H%d", i), nil, t, false, false})
 	}
 	for i, t := range shippedTypes() {
-		types = append(types, codecCase{fmt.Sprintf("S%d", i), nil, t, false})
+		types = append(types, codecCase{fmt.Sprintf("S%d", i), nil, t, false, false})
+	}
+	for i := range types {
+		types[i].noC20 = types[i].gt != nil && intAfterInline(types[i].gt)
 	}
 	for _, tc := range types {
 		def := fmt.Sprintf("Definition %s : list sfield := %s.", tc.tname, structDesc(tc.t))
@@ -324,6 +328,15 @@ func corrCodec(prop string, outDir string, seed uint64, tier string, withEdits b
 			for k := 0; k < nVals; k++ {
 				doValue(tc, genValue(r, tc.gt, !tc.class && k%2 == 0), "generated")
 			}
+			// inputs written from the layout, independently of Marshal
+			for k := 0; k < nVals; k++ {
+				h := genString(r, tc.gt)
+				if withEdits {
+					editCasesOf(rep, r, tc, h, unmarshalCase, false)
+				} else {
+					unmarshalCase(tc, h, "layout_driven")
+				}
+			}
 		case strings.HasPrefix(tc.tname, "H"):
 			for k := 0; k < 2*nVals; k++ {
 				p := reflect.New(tc.t)
@@ -359,4 +372,21 @@ func corrCodec(prop string, outDir string, seed uint64, tier string, withEdits b
 
 func corrC10(outDir string, seed uint64, tier string, replay string) *report {
 	return corrCodec("C10", outDir, seed, tier, false)
+}
+
+// intAfterInline: a plain integer field directly after an inline field shares its fragment; "abc007" is then accepted
+// and written back as "abc7", a digit respelling that no fragment-level comparison can see (C20's inline_next_exact)
+func intAfterInline(gt *gType) bool {
+	var fs []*gField
+	for _, f := range gt.fields {
+		if !f.isPrefix() {
+			fs = append(fs, f)
+		}
+	}
+	for i := 0; i+1 < len(fs); i++ {
+		if fs[i].inline && isIntLike(fs[i+1].typ) {
+			return true
+		}
+	}
+	return false
 }
